@@ -86,11 +86,14 @@ def be24(b, i):
 
 
 def reference_hello(vc, data, dtls, max_records=3):
-    """Reference reader. Returns ('incomplete',) | ('invalid',) | ('hello', bytes) | ('beyond',) following the contract's
-    own branches (vc.branch) on the symbolic input."""
+    """Reference reader. Returns ('incomplete',) | ('invalid',) | ('hello', pieces, need) | ('beyond',) following the
+    contract's own branches (vc.branch) on the symbolic input; pieces = [(payload offset in data, payload size)] of the
+    records read, need = length of the handshake message incl. its header (the hello is the first `need` bytes of the
+    concatenated payloads)."""
     H = 13 if dtls else 5
     off = 0
-    acc = b""
+    pieces = []
+    total = 0
     for _ in range(max_records):
         if vc.branch(len_(data) < off + H):
             return ("incomplete",)
@@ -101,26 +104,34 @@ def reference_hello(vc, data, dtls, max_records=3):
             return ("invalid",)
         if vc.branch(len_(data) < off + H + size):
             return ("incomplete",)
-        acc = acc + data[off + H:off + H + size]
+        pieces.append((off + H, size))
+        total = total + size
         off = off + H + size
-        if dtls:
-            if vc.branch(len_(acc) >= 13):
-                need = be24(acc, 9) + 12
-                if vc.branch(len_(acc) >= need):
-                    return ("hello", acc[:need])
-        else:
-            if vc.branch(len_(acc) >= 4):
-                need = be24(acc, 1) + 4
-                if vc.branch(len_(acc) >= need):
-                    return ("hello", acc[:need])
+        hl, lo = (13, 9) if dtls else (4, 1)
+        if vc.branch(total >= hl):
+            need = (acc_at(data, pieces, lo) * 65536 + acc_at(data, pieces, lo + 1) * 256 + acc_at(data, pieces, lo + 2)) + (12 if dtls else 4)
+            if vc.branch(total >= need):
+                return ("hello", pieces, need)
     return ("beyond",)
+
+
+def acc_at(data, pieces, i):
+    """byte i of the concatenation of the pieces of data (i within range)"""
+    start, size = pieces[0]
+    if len(pieces) == 1:
+        return code_at(data, start + i)
+    return If(i < size, code_at(data, start + i), acc_at(data, pieces[1:], i - size))
+
+
+def native_concat(data, pieces):
+    return b"".join(bytes(data[a:a + n]) for a, n in pieces)
 
 
 def is_value_error(out):
     return out.raised is not None and issubclass(out.raised_type(), ValueError)
 
 
-def check_against_reference(vc, out, ref, tag):
+def check_against_reference(vc, out, ref, data, tag=""):
     vc.ensure(tag + "total.raises_only_ValueError", out.ok or is_value_error(out))
     if ref[0] == "incomplete":
         vc.ensure(tag + "incomplete.returns_None", out.ok and isnone(out.result))
@@ -129,7 +140,18 @@ def check_against_reference(vc, out, ref, tag):
     elif ref[0] == "hello":
         vc.ensure(tag + "complete.returns_hello", out.ok and not isnone(out.result))
         if out.ok and not isnone(out.result):
-            vc.ensure(tag + "complete.exact_bytes", out.result == ref[1])
+            same_bytes(vc, out.result, data, ref[1], ref[2], tag + "complete.")
+
+
+def same_bytes(vc, r, data, pieces, need, tag):
+    """r == first `need` bytes of the concatenated pieces: equal length and equal byte at every index (symbolic index i)"""
+    if vc.mode == "native":
+        vc.ensure(tag + "length", len(r) == need)
+        vc.ensure(tag + "byte_at_every_index", bytes(r) == native_concat(data, pieces)[:need])
+        return
+    vc.ensure(tag + "length", len_(r) == need)
+    i = vc.ex.fresh("int", "idx")
+    vc.ensure(tag + "byte_at_every_index", Implies(And(i >= 0, i < need), code_at(r, i) == acc_at(data, pieces, i)))
 
 
 for _dtls in (False, True):
@@ -142,7 +164,7 @@ for _dtls in (False, True):
         ref = reference_hello(vc, data, _dtls)
         if ref[0] == "beyond":
             return
-        check_against_reference(vc, out, ref, "")
+        check_against_reference(vc, out, ref, data)
 
     scenario(("dtls." if _dtls else "tls.") + "get_client_hello.reference", functions=[_fn, _gen, N + (":starts_like_dtls_record" if _dtls else ":starts_like_tls_record")],
              lazy_generators=True, max_unroll=3)(_s_get)
